@@ -7,7 +7,7 @@ import itertools
 from ..final import check_execute
 from ..kernel import Chooser
 from ..lazy import seq
-from ..seqcheck import explore_task
+from ..seqcheck import explore_task, nest_tasks
 from ..tracelib import split_calls
 
 PID = "C11"
@@ -45,7 +45,7 @@ def tasks(tier):
     for M, pc, mu, dl, bud in itertools.product(
             [1, 2, 3], pcs, [None, 1], [None, 3], [None, {"max": 1, "window": 8}]):
         cfg = dict(M=M, per_class=pc, max_unknown=mu, deadline=dl, budget=bud, alphabet=ALPHA,
-                   durs=[0, 2], abort=True, handler="call", strat_menu=[1, 9],
+                   durs=[0, 2], overshoot=[0, 2], abort=True, handler="call", strat_menu=[1, 9],
                    strat={"default": "ctx", "per": {}} if mu is None else
                    {"default": None, "per": {"T": "ctx", "U": "legacy"}})
         for e in ENTRIES:
@@ -67,6 +67,8 @@ def tasks(tier):
         cfg = dict(M=1, alphabet=["ok"] + [f"x:{k}" for k in "TRSCUPAF"] + ["abort", "kbd", "cancel"],
                    abort=True, attempt_hooks="call")
         out.append({"family": "outcome-noretry", "cfg": cfg, "entry": e, "bound": 1})
+    out += nest_tasks(["Retry.execute", "AsyncRetry.execute", "Policy.execute"],
+                      "outcome-reentrant", ["ok", "x:T", "r:T", "x:U", "abort"], handler="call")
     return out
 
 
